@@ -118,6 +118,18 @@ pub fn cases(seed: u64, n_random: usize) -> Vec<Case> {
             }
         }
     }
+    // the main thread is done while the scan is still running (one-shot flags, empty input, an
+    // error exit): it must leave, with the right status, whatever the scanning thread is doing
+    for (args, exit) in [(vec!["--show-config"], 0), (vec!["--version"], 0), (vec!["--list-languages"], 0), (vec!["--no-gitconfig"], 0), (vec!["--no-gitconfig", "--width", "nonsense"], 2)] {
+        for mode in [0i64, 1] {
+            let mut spec = base(args.iter().map(|a| a.to_string()).collect());
+            spec.args.push("--paging".into());
+            spec.args.push("never".into());
+            spec.plan.scan_delay_ms = 1500;
+            spec.plan.scan_cmdline = mode;
+            out.push(Case { name: format!("main thread finished while the scan runs: {:?}, scan fault {}", args, mode), spec, expect_exit: exit, tokens: vec![], group: String::new(), must_highlight: false });
+        }
+    }
     let n_fixed = out.len();
     // random delivery schedules / hash seeds on top
     let n0 = out.len();
